@@ -1,6 +1,6 @@
 //go:build verif
 
-package tkn20
+package tkn20_test
 
 // C20, policy level: for every policy formula of a bounded grammar and every
 // attribute assignment over a small alphabet, Policy.Satisfaction must equal the
@@ -10,14 +10,15 @@ package tkn20
 // minimal parentheses, exotic white space), and the policy must survive
 // String -> FromString and MarshalBinary -> UnmarshalBinary.
 //
-// In-package (package tkn20) only to reach Policy.policy for the binary round
-// trip and for a structural comparison of differently spelled policies.
+// External test package: only the exported API. The binary form and the structural dump of a policy come through
+// verifref/c20hooks from the one in-package file (zz_verif_c20_internals_test.go); without it those sub-checks are skipped.
 
 import (
 	"encoding/json"
 	"fmt"
+	"github.com/cloudflare/circl/abe/cpabe/tkn20"
+	"github.com/cloudflare/circl/internal/verifref/c20hooks"
 	"os"
-	"reflect"
 	"sort"
 	"strings"
 	"sync"
@@ -41,7 +42,7 @@ var (
 type c20Asg struct {
 	m     map[string]string
 	name  string
-	attrs Attributes
+	attrs tkn20.Attributes
 }
 
 func c20Assignments(labels, values []string) []c20Asg {
@@ -132,9 +133,16 @@ func c20Flush(r *verifmc.Run) {
 	}
 }
 
+// c20SameStructure: complete structural identity of two policies (same wires, scalars, polarities, gates in the same
+// order), decided on the dump of the in-package read-out; "unknown" (false) when the read-out is not linked in, in which
+// case callers evaluate both policies separately.
+func c20SameStructure(a, b *tkn20.Policy) bool {
+	return c20hooks.PolicyDump != nil && c20hooks.PolicyDump(a) == c20hooks.PolicyDump(b)
+}
+
 // c20Parse calls Policy.FromString, turning a panic into a description.
-func c20Parse(s string) (p *Policy, err error, panicked string) {
-	p = new(Policy)
+func c20Parse(s string) (p *tkn20.Policy, err error, panicked string) {
+	p = new(tkn20.Policy)
 	if pn, what := verifmc.Try(func() { err = p.FromString(s) }); pn {
 		return nil, nil, what
 	}
@@ -303,7 +311,7 @@ func c20CheckFormula(r *verifmc.Run, space string, f *abe.Node, asgs []c20Asg, s
 	r.Count("pairs_with_negated_leaf_label_missing", nMissNeg)
 
 	// evalAll compares Satisfaction of one policy object with the reference on every assignment.
-	evalAll := func(p *Policy, via string) {
+	evalAll := func(p *tkn20.Policy, via string) {
 		i := 0
 		pn, w := verifmc.Try(func() {
 			for i = 0; i < len(asgs); i++ {
@@ -352,7 +360,7 @@ func c20CheckFormula(r *verifmc.Run, space string, f *abe.Node, asgs []c20Asg, s
 			viol("Policy.FromString", "panic:"+verifmc.PanicClass(pn)+"/style="+abe.StyleNames[st], fmt.Sprintf("FromString(%q) panicked: %s", si, pn), map[string]interface{}{"spelling": si})
 		case err != nil:
 			viol("Policy.FromString", "error/style="+abe.StyleNames[st], fmt.Sprintf("FromString(%q) refused a policy of the language: %v", si, err), map[string]interface{}{"spelling": si})
-		case reflect.DeepEqual(pi.policy, p0.policy):
+		case c20SameStructure(pi, p0):
 			r.Count("spellings_parsed_to_identical_structure", 1)
 		default:
 			r.Count("spellings_parsed_to_other_structure_evaluated_separately", 1)
@@ -387,34 +395,38 @@ func c20CheckFormula(r *verifmc.Run, space string, f *abe.Node, asgs []c20Asg, s
 		if !p0.Equal(q) || !q.Equal(p0) {
 			viol("Policy.String", "roundtrip-not-equal/fresh", fmt.Sprintf("policy %q: FromString(String()=%q) is not Equal to the policy", s0, str), nil)
 		}
-		if reflect.DeepEqual(q.policy, p0.policy) {
+		if c20SameStructure(q, p0) {
 			r.Count("reparsed_identical_structure", 1)
 		} else {
 			evalAll(q, "reparsed")
 		}
 	}
 
-	// binary round trip
-	var m Policy
-	var b []byte
-	var merr error
-	if pn, w := verifmc.Try(func() {
-		b, merr = p0.policy.MarshalBinary()
-		if merr == nil {
-			merr = m.policy.UnmarshalBinary(append([]byte{}, b...))
-		}
-	}); pn {
-		viol("Policy.MarshalBinary", "panic:"+verifmc.PanicClass(w), fmt.Sprintf("binary round trip of %q panicked: %s", s0, w), nil)
-	} else if merr != nil {
-		viol("Policy.MarshalBinary", "roundtrip-error", fmt.Sprintf("binary round trip of %q: %v", s0, merr), nil)
+	// binary round trip (needs the in-package read-out)
+	if c20hooks.PolicyMarshal == nil || c20hooks.PolicyUnmarshal == nil {
+		r.Count("binary_roundtrip_skipped_(in-package_readout_not_linked)", 1)
 	} else {
-		if !p0.Equal(&m) || !m.Equal(p0) {
-			viol("Policy.MarshalBinary", "roundtrip-not-equal", fmt.Sprintf("policy %q: UnmarshalBinary(MarshalBinary()) is not Equal to the policy", s0), map[string]interface{}{"bytes": verifmc.FullHex(b)})
-		}
-		if reflect.DeepEqual(m.policy, p0.policy) {
-			r.Count("unmarshalled_identical_structure", 1)
+		var m tkn20.Policy
+		var b []byte
+		var merr error
+		if pn, w := verifmc.Try(func() {
+			b, merr = c20hooks.PolicyMarshal(p0)
+			if merr == nil {
+				merr = c20hooks.PolicyUnmarshal(&m, append([]byte{}, b...))
+			}
+		}); pn {
+			viol("Policy.MarshalBinary", "panic:"+verifmc.PanicClass(w), fmt.Sprintf("binary round trip of %q panicked: %s", s0, w), nil)
+		} else if merr != nil {
+			viol("Policy.MarshalBinary", "roundtrip-error", fmt.Sprintf("binary round trip of %q: %v", s0, merr), nil)
 		} else {
-			evalAll(&m, "unmarshalled")
+			if !p0.Equal(&m) || !m.Equal(p0) {
+				viol("Policy.MarshalBinary", "roundtrip-not-equal", fmt.Sprintf("policy %q: UnmarshalBinary(MarshalBinary()) is not Equal to the policy", s0), map[string]interface{}{"bytes": verifmc.FullHex(b)})
+			}
+			if c20SameStructure(&m, p0) {
+				r.Count("unmarshalled_identical_structure", 1)
+			} else {
+				evalAll(&m, "unmarshalled")
+			}
 		}
 	}
 
@@ -478,7 +490,11 @@ func TestVerifC20_policy(t *testing.T) {
 	r.RequireCounter("pairs_unsatisfied", 1000)
 	r.RequireCounter("pairs_where_naive_complement_reading_differs", 1000)
 	r.RequireCounter("pairs_with_negated_leaf_label_missing", 1000)
-	r.RequireCounter("spellings_parsed_to_identical_structure", 1000)
+	r.Set("in_package_readout_linked", c20hooks.Available())
+	if c20hooks.Available() {
+		r.RequireCounter("spellings_parsed_to_identical_structure", 1000)
+		r.RequireCounter("unmarshalled_identical_structure", 1000)
+	}
 }
 
 // TestVerifC20_refcheck binds the reference evaluator, its parser/printer and the legacy-format
@@ -498,7 +514,7 @@ func TestVerifC20_refcheck(t *testing.T) {
 		t.Fatalf("policies.json: %v", err)
 	}
 	var vec []struct {
-		Policy  string
+		Pol     string `json:"policy"`
 		Success bool
 		Attrs   map[string]string `json:"attributes"`
 	}
@@ -506,15 +522,15 @@ func TestVerifC20_refcheck(t *testing.T) {
 		t.Fatalf("policies.json: %v (%d vectors)", err, len(vec))
 	}
 	for _, v := range vec {
-		f, err := abe.Parse(v.Policy)
+		f, err := abe.Parse(v.Pol)
 		if err != nil {
-			t.Fatalf("reference parser refuses repository vector %q: %v", v.Policy, err)
+			t.Fatalf("reference parser refuses repository vector %q: %v", v.Pol, err)
 		}
 		if got := abe.Eval(f, v.Attrs); got != v.Success {
-			t.Fatalf("reference evaluator: %q on %v = %v, repository vector says %v", v.Policy, v.Attrs, got, v.Success)
+			t.Fatalf("reference evaluator: %q on %v = %v, repository vector says %v", v.Pol, v.Attrs, got, v.Success)
 		}
 		r.Eval(1)
-		r.Distinct("json", v.Policy, fmt.Sprint(v.Attrs))
+		r.Distinct("json", v.Pol, fmt.Sprint(v.Attrs))
 	}
 	r.Count("repository_vectors", len(vec))
 	// (b) the statement, by hand
